@@ -34,3 +34,21 @@ Theorem C13_selection : forall names,
   (forall a b r, single_default (a :: b :: r) None = SelError) /\ single_default [] None = SelError.
 Proof. intros; repeat split. Qed.
 Print Assumptions C13_selection.
+
+(* ---------------------------------------------------------------------------------------------------------------------------------
+   The isolation limit, as far as it is a theorem: how fast one vortex element's influence falls off.
+   A straight (bound or joint) segment of length L whose ends are seen at distances ma, mb, within 90 degrees of each other:
+       |K|^2 <= (ma + mb)^2 L^2 / (2 (ma mb)^3)       i.e.  O(L / D^2);
+   a semi-infinite trailing filament seen at perpendicular distance h = |u x r| from its line:  |K| h <= 2, i.e. O(1/h) -
+   there is no decay along a wake, only away from it (an aircraft flying in another's wake is never "isolated"). *)
+From Coq Require Import Reals.
+From MuxV Require Import Base.Num Base.Vec3 Base.RInst Model.Kernel Proofs.DecayP.
+Local Open Scope R_scope.
+Theorem C13_influence_decays :
+  (forall ra rb : v3 R, 0 < vnorm ra -> 0 < vnorm rb -> 0 <= vdot ra rb ->
+     let ma := vnorm ra in let mb := vnorm rb in let L2 := vdot (vsub rb ra) (vsub rb ra) in
+     vnorm2 (seg_kernel ra rb) <= (ma + mb) * (ma + mb) * L2 / (2 * (ma * mb) * (ma * mb) * (ma * mb))) /\
+  (forall cutoff (u r : v3 R), vdot u u = 1 -> 0 <= cutoff -> cutoff < trail_denom u r ->
+     vnorm2 (trail_kernel (fun x => x) cutoff u r) * vnorm2 (vcross u r) <= 4).
+Proof. split; [exact seg_kernel_decay | exact trail_kernel_decay]. Qed.
+Print Assumptions C13_influence_decays.
